@@ -136,3 +136,20 @@ reg("C16",
     rule="one evaluation = one reactor-driven history ending in a quiescent pair which is then probed (both connection ends and the server socket); "
          "non-trivial = the history completed with at least 3 wake-ups; distinct = distinct parameter signatures",
     assumptions=["quiescence is established by the engine: ledgers equal, from_app == to_lower, xcm_finish == 0 on both ends"])
+
+STATES = ENGINE + ["vdns.c", "vnet.c", "vstate.c"]
+
+reg("C10",
+    title="attribute reads and writes are memory-safe and type-checked",
+    technique="exhaustive capacity sweep of every getter on exact-size heap buffers under ASan+UBSan, reference snapshot (xcm_attr_get_all) as value oracle, before/after snapshots as side-effect oracle for every rejected xcm_attr_set, hostile name generator; sockets held in every phase",
+    level_text="For every transport and every phase a socket can be held in (fresh server, established, peer closed seen/unseen, failed, back-pressured, TCP connecting to a no-answer address, resolving with a silent stub resolver, TLS handshaking with a silent raw peer) every attribute that xcm_attr_get_all enumerates is read through xcm_attr_get/getf and all typed getters with destination buffers that are heap blocks of exactly `capacity` bytes for every capacity 0..len+2 (ASan red zone at the first byte beyond), and written through xcm_attr_set with every wrong type, wrong lengths and a table of admissible and inadmissible values; rejected sets must leave the full attribute snapshot unchanged, accepted ones must read back. Generated hostile names (10 kB, >64 components, unbalanced brackets, huge indices, non-ASCII) go through get, set and list_len. A third of the cases run with the console log enabled so the value-formatting code runs on the same buffers.",
+    level_note="ASan red zones detect writes beyond capacity only up to the red-zone size; intra-capacity garbage is not policed. Out-of-enum type values are not passed (API precondition).",
+    harness=STATES + ["c10.c"],
+    stages=[dict(variant="asan", cases={"quick": 3 * 47, "thorough": 24 * 47}, timeout={"quick": 900, "thorough": 3400})],
+    floors={"quick": {"attr_get_calls": 50000, "get_capacity_too_small": 20000, "typed_get_wrong_type": 20000, "attr_set_rejected": 5000, "set_side_effect_checks": 5000,
+                      "attr_set_accepted": 300, "hostile_name_calls": 5000, "sockets_examined": 150, "distinct_nontrivial": 400},
+            "thorough": {"attr_get_calls": 400000, "attr_set_rejected": 40000, "hostile_name_calls": 40000, "distinct_nontrivial": 400}},
+    rule="one evaluation = one (transport, phase) socket set (client, accepted, server as present) whose every enumerated attribute is swept over capacities, getters, setter types/lengths/values and hostile names; "
+         "distinct = distinct (transport, phase, socket role, attribute) tuples examined; all are non-trivial",
+    assumptions=["tcp.rtt, tcp.total_retrans, tcp.segs_in, tcp.segs_out are compared by type and length only (volatile)",
+                 "xcm.blocking is not switched to true on sockets held in a pending phase (the switch waits by contract)"])
